@@ -64,9 +64,12 @@ type Scenario struct {
 	// LastRound: inits and numbers 1..3 in turn; then init segments are sent again (1: one track, the MPD mutex is held
 	// so that its registration is in progress; 2: every track, nothing held) while the last number (4) of every
 	// track is uploaded. Nothing follows: the final state must be that of the sequential order
-	LastRound int  `json:"lastround,omitempty"`
-	Restart   bool `json:"restart,omitempty"`
-	Raw       bool `json:"raw,omitempty"`
+	LastRound int `json:"lastround,omitempty"`
+	// Collide: (channel, track) pairs whose names contain separator characters so that their concatenations
+	// coincide; an earlier run left init_org on disk, the restarted receiver gets MEDIA segments as first uploads
+	Collide [][2]string `json:"collide,omitempty"`
+	Restart bool        `json:"restart,omitempty"`
+	Raw     bool        `json:"raw,omitempty"`
 	// StartReg: all tracks but the last deliver init and segment 1; then (concurrent run) the MPD mutex is held, the
 	// master's segment 2 starts the channel (the channel goroutine waits for the mutex in its start-up derivation),
 	// the last track registers meanwhile, the mutex is released; then the remaining segments. manifest.mpd is read.
@@ -595,6 +598,47 @@ func runOnce(si, round int, sc Scenario) Outcome {
 		ow.Wait()
 		rcv.Sync(chn)
 	}
+	if len(sc.Collide) > 0 {
+		tr0 := sc.Tracks[0]
+		for _, p := range sc.Collide { // the earlier run
+			count(put(rcv.Router, fmt.Sprintf("/upload/%s/%s/init%s", p[0], p[1], tr0.Ext), inits[tr0.Name], sc.Auth))
+			count(put(rcv.Router, fmt.Sprintf("/upload/%s/%s/1%s", p[0], p[1], tr0.Ext), segs[tr0.Name], sc.Auth))
+		}
+		for _, p := range sc.Collide {
+			rcv.Sync(p[0])
+		}
+		cancel()
+		for i := 0; i < 2000 && channelGoroutines() > before; i++ {
+			time.Sleep(time.Millisecond)
+		}
+		ctx, cancel = context.WithCancel(context.Background())
+		rcv, err = app.VerifNewReceiver(ctx, storage, "/upload", 30, cfg)
+		if err != nil {
+			panic(err)
+		}
+		var cw sync.WaitGroup
+		go_ := make(chan struct{})
+		for k, p := range sc.Collide {
+			up := func(k int, p [2]string) {
+				count(put(rcv.Router, fmt.Sprintf("/upload/%s/%s/%d%s", p[0], p[1], 2+k, tr0.Ext), segment(tr0, uint32(2+k)), sc.Auth))
+			}
+			if sc.Sequential {
+				up(k, p)
+				continue
+			}
+			cw.Add(1)
+			go func(k int, p [2]string) { defer cw.Done(); <-go_; up(k, p) }(k, p)
+		}
+		close(go_)
+		cw.Wait()
+		for _, p := range sc.Collide {
+			rcv.Sync(p[0])
+		}
+		// second uploads, in turn
+		for k, p := range sc.Collide {
+			count(put(rcv.Router, fmt.Sprintf("/upload/%s/%s/%d%s", p[0], p[1], 12+k, tr0.Ext), segment(tr0, uint32(12+k)), sc.Auth))
+		}
+	}
 	if sc.LastRound > 0 {
 		chn := sc.Channels[0]
 		for _, tr := range sc.Tracks {
@@ -708,7 +752,7 @@ func runOnce(si, round int, sc Scenario) Outcome {
 		mu.Unlock()
 	}
 	for _, chn := range sc.Channels {
-		if sc.Backlog || sc.Feed > 0 || sc.Restart || sc.StartReg || sc.OpenStart || sc.Overlap || sc.LastRound > 0 {
+		if sc.Backlog || sc.Feed > 0 || sc.Restart || sc.StartReg || sc.OpenStart || sc.Overlap || sc.LastRound > 0 || len(sc.Collide) > 0 {
 			break
 		}
 		for _, tr := range sc.Tracks {
@@ -764,6 +808,14 @@ func runOnce(si, round int, sc Scenario) Outcome {
 			ents, _ := os.ReadDir(filepath.Join(storage, chn, tr.Name))
 			for _, e := range ents {
 				files = append(files, tr.Name+"/"+e.Name())
+			}
+		}
+		for _, p := range sc.Collide {
+			if p[0] == chn {
+				ents, _ := os.ReadDir(filepath.Join(storage, chn, p[1]))
+				for _, e := range ents {
+					files = append(files, p[1]+"/"+e.Name())
+				}
 			}
 		}
 		sort.Strings(files)
